@@ -14,6 +14,7 @@ import (
 	"io"
 	"log"
 	"net"
+	"net/netip"
 	"os"
 	"sync"
 	"sync/atomic"
@@ -391,10 +392,18 @@ func (pm *Portmapper) handleCall(data []byte, remoteAddr net.Addr) ([]byte, erro
 		switch procedure {
 		case 0: // RPCBPROC_NULL
 			result = nil
-		case 1: // RPCBPROC_SET - not implemented
-			result = pm.handleRpcbSet(r)
-		case 2: // RPCBPROC_UNSET - not implemented
-			result = pm.handleRpcbUnset(r)
+		case 1: // RPCBPROC_SET
+			if !callerMayModify(remoteAddr) {
+				result = pm.encodeBool(false)
+			} else {
+				result = pm.handleRpcbSet(r)
+			}
+		case 2: // RPCBPROC_UNSET
+			if !callerMayModify(remoteAddr) {
+				result = pm.encodeBool(false)
+			} else {
+				result = pm.handleRpcbUnset(r)
+			}
 		case 3: // RPCBPROC_GETADDR
 			result = pm.handleGetAddr(r)
 		case 4: // RPCBPROC_DUMP
@@ -489,6 +498,26 @@ func (pm *Portmapper) handleGetPort(r io.Reader) []byte {
 	return pm.encodePort(resultPort)
 }
 
+// callerMayModify reports whether the peer of an RPC call may change the
+// registry (SET/UNSET of portmap v2 and rpcbind v3/v4): only loopback peers
+// may. A peer address that cannot be parsed as host:port with an IP host
+// (IPv6 zones are understood) is treated as non-local. A nil address means
+// the call did not arrive over a transport (in-process use) and is allowed.
+func callerMayModify(remoteAddr net.Addr) bool {
+	if remoteAddr == nil {
+		return true
+	}
+	host, _, err := net.SplitHostPort(remoteAddr.String())
+	if err != nil {
+		return false
+	}
+	addr, err := netip.ParseAddr(host)
+	if err != nil {
+		return false
+	}
+	return addr.Unmap().IsLoopback()
+}
+
 func (pm *Portmapper) handleDump() []byte {
 	mappings := pm.GetMappings()
 
@@ -509,12 +538,8 @@ func (pm *Portmapper) handleDump() []byte {
 
 func (pm *Portmapper) handleSet(r io.Reader, remoteAddr net.Addr) []byte {
 	// Only allow SET from localhost
-	if remoteAddr != nil {
-		host, _, _ := net.SplitHostPort(remoteAddr.String())
-		ip := net.ParseIP(host)
-		if ip != nil && !ip.IsLoopback() {
-			return pm.encodeBool(false)
-		}
+	if !callerMayModify(remoteAddr) {
+		return pm.encodeBool(false)
 	}
 
 	var prog, vers, prot, port uint32
@@ -538,12 +563,8 @@ func (pm *Portmapper) handleSet(r io.Reader, remoteAddr net.Addr) []byte {
 
 func (pm *Portmapper) handleUnset(r io.Reader, remoteAddr net.Addr) []byte {
 	// Only allow UNSET from localhost
-	if remoteAddr != nil {
-		host, _, _ := net.SplitHostPort(remoteAddr.String())
-		ip := net.ParseIP(host)
-		if ip != nil && !ip.IsLoopback() {
-			return pm.encodeBool(false)
-		}
+	if !callerMayModify(remoteAddr) {
+		return pm.encodeBool(false)
 	}
 
 	var prog, vers, prot, port uint32
@@ -771,6 +792,11 @@ func (pm *Portmapper) makeReply(xid uint32, status uint32, data []byte) []byte {
 		}
 	} else {
 		binary.Write(&buf, binary.BigEndian, status)
+		if status == PROG_MISMATCH {
+			// RFC 1831 mismatch_info: lowest and highest supported version
+			binary.Write(&buf, binary.BigEndian, uint32(2))
+			binary.Write(&buf, binary.BigEndian, uint32(4))
+		}
 	}
 
 	return buf.Bytes()
